@@ -183,6 +183,11 @@ def run(db, cx):
               "%s" % [e.get("rhs") for e in pw], short(f.loc),
               why="every secondary must have an existing parent")
 
+    # 2c ------------- the secondaries span is per-step scratch: cleared for every occupied slot
+    # (a span that survives into the next step is turned into tracks a second time)
+    shared.prestep_scratch_reset(db, cx, "C02.2-secondaries-reset", meths=("secondaries",),
+                                 step_limit=False)
+
     # 3b ----------------------------------- index array re-sequenced before every partition
     n_part = 0
     for f in db.get(C + "InitializeTracksAction::step_impl"):
